@@ -254,7 +254,7 @@ func init() {
 			}
 		}})
 
-	register(&Rule{ID: "C18.rebuild", Props: []string{"C18", "C02", "C07", "C20", "C15"}, Floor: 8,
+	register(&Rule{ID: "C18.rebuild", Props: []string{"C18", "C02", "C07", "C20", "C15", "C08"}, Floor: 8,
 		Doc: "on import, records are stored under keys built from their own fields and derived indexes from the record's fields and completion time",
 		Run: func(e *Engine, r *RuleRun) {
 			fn := r.Need("keeper.Keeper.InitGenesis")
